@@ -76,7 +76,9 @@ impl<'i, C: Context<'i, str, St, Tk>> Lexer<'i, C, St, Tk> for Hostile {
                 if rest.is_empty() {
                     return Box::new(std::iter::once(mk((h % 2) as usize * (self.nterm - 1), 0)).filter(|t| t.kind.0 == 0));
                 }
-                let len: usize = rest.chars().take_while(|c| !c.is_whitespace()).take(1 + (h % 3) as usize).map(|c| c.len_utf8()).sum();
+                // mode 3: tokens of 1-3 characters; mode 4: a word lexer, the token is the whole run up to the next whitespace
+                let cap = if self.mode == 4 { usize::MAX } else { 1 + (h % 3) as usize };
+                let len: usize = rest.chars().take_while(|c| !c.is_whitespace()).take(cap).map(|c| c.len_utf8()).sum();
                 let kind = (h >> 7) as usize % self.nterm;
                 if kind == 0 {
                     // STOP in the middle of the input
@@ -189,6 +191,26 @@ pub fn inputs_for(g: Option<&AG>, lits: &[String], rng: &mut Rng, n: usize) -> V
                     }
                 }
             }
+        }
+        out.push(s);
+    }
+    // long words (token values / unrecognised runs of 40-200 bytes) mixing 1-4 byte characters
+    for _ in 0..(n / 8).max(2) {
+        let mut s = String::new();
+        for _ in 0..rng.range(1, 3) {
+            let target = rng.range(40, 200);
+            let mut w = String::new();
+            while w.len() < target {
+                match rng.below(6) {
+                    0 => w.push('é'),
+                    1 => w.push('𝄞'),
+                    2 => w.push('\u{20ac}'),
+                    3 => w.push_str(&pick_lit(rng)),
+                    _ => w.push((b'a' + rng.below(26) as u8) as char),
+                }
+            }
+            s.push_str(&w);
+            s.push(' ');
         }
         out.push(s);
     }
@@ -307,7 +329,7 @@ pub fn main(a: &Args) {
     }
     let n = if a.thorough { a.n.unwrap_or(600) } else { a.n.unwrap_or(40) };
     let per = if a.thorough { 60 } else { 30 };
-    let lexer_modes: &[u8] = &[0, 0, 1, 2, 3];
+    let lexer_modes: &[u8] = &[0, 0, 1, 2, 3, 4];
     // (d) every grammar shipped in the repository, on one shard per algorithm
     if a.shard < 2 {
         for (path, text) in repo_grammars() {
@@ -316,10 +338,36 @@ pub fn main(a: &Args) {
             let Some(t) = mk_target(&path, &text, &spec, &wd, &mut rep) else { continue };
             let lits = lits_of_dump_text(&text);
             for input in inputs_for(None, &lits, &mut rng, per) {
-                for m in [0u8, 1, 3] {
+                for m in [0u8, 1, 3, 4] {
                     judge(&t, &input, m, &mut rep, &curfile);
                 }
             }
+        }
+    }
+    // (e) terminals whose regex matches arbitrarily long text (words, strings, comments-as-tokens) under the default
+    // lexer: long multi-byte token values travel through shifts, error messages and tree builders
+    if a.shard == 4 || a.shard == 5 {
+        let glr = a.shard == 5;
+        for (name, text) in [
+            ("long_words", "S: Item+;\nItem: W | N;\nterminals\nW: /[^\\s\\d]\\S*/;\nN: /\\d+/;\n"),
+            ("long_strings", "S: Item*;\nItem: Str | Id | '(' S ')';\nterminals\nStr: /\"[^\"]*\"/;\nId: /[^\\s\"()]+/;\nOB: '(';\nCB: ')';\n"),
+            ("long_tail", "S: K Rest | K;\nterminals\nK: /[a-z]+/;\nRest: /=.*/;\n"),
+        ] {
+            let spec = SetSpec { glr, ps: if glr { None } else { Some(true) }, ..Default::default() };
+            let Some(t) = mk_target(name, text, &spec, &wd, &mut rep) else {
+                rep.harness_error("long-token grammar not compiled", json!({"grammar": text}));
+                continue;
+            };
+            let lits = vec!["\"".to_string(), "(".to_string(), ")".to_string(), "=".to_string(), "7".to_string(), "k".to_string()];
+            let mut ins = inputs_for(None, &lits, &mut rng, per * 8);
+            let extra: Vec<String> = ins.iter().filter(|s| s.len() > 40).flat_map(|s| [format!("\"{}\"", s), format!("k ={}", s), format!("({} \"{}", s, s)]).collect();
+            ins.extend(extra);
+            for input in ins {
+                for m in [0u8, 1, 4] {
+                    judge(&t, &input, m, &mut rep, &curfile);
+                }
+            }
+            rep.count("long_token_grammars", 1);
         }
     }
     // long inputs: deep stacks and long token runs
@@ -432,6 +480,6 @@ pub fn main(a: &Args) {
     if let Some(cf) = &curfile {
         let _ = std::fs::remove_file(cf);
     }
-    rep.sample(json!({"noise_inputs": NOISE.len(), "lexer_modes": "0 default, 1 ignores expected set, 2 early STOP, 3 random kind"}));
+    rep.sample(json!({"noise_inputs": NOISE.len(), "lexer_modes": "0 default, 1 ignores expected set, 2 early STOP, 3 random kind (1-3 chars), 4 random kind (whole words)"}));
     rep.finish();
 }
